@@ -452,6 +452,26 @@ static void build_streams(void)
                 sb_end(st);
         }
 
+        /* 11: scrambled packets of foreign PIDs (a pay-TV multiplex), between PES packets and between the two TS packets
+         * of one PES packet; null packets (PID 0x1FFF) likewise.  Foreign PIDs are none of the demultiplexer's business
+         * whatever their header bits say (seed C07-9: the scrambling check ran before the PID filter and dropped the VBI
+         * frame in progress).  Intact stream: the sent frames are the expected output. */
+        {
+                st = &ST[NST++]; sb_begin(st, "ts-scrambled-foreign", 1, 0x10);
+                for (int f = 0; f < 3; f++) {
+                        sb_packet(st, f, LS({'t',7},{'t',8},{'t',9},{'v',16},{'t',320},{'t',321},{'t',322}), 368, 368);
+                        if (f >= 1) {
+                                uint8_t keep[188]; memcpy(keep, st->b + st->n - 188, 188);
+                                st->n -= 188; st->npk--;
+                                sb_ts_foreign(st, f == 2 ? 0x1FFF : 0x0100 + f, f == 1 ? 0x97 : 0xD3, 11 + f);     /* tsc 10, 11 */
+                                sb_append(st, keep, 188, f);
+                        }
+                        if (f != 1) sb_ts_foreign(st, 0x0200, f ? 0x5A : 0xDA, 40 + f);                              /* tsc 01, 11 */
+                }
+                frameA(st, 3); frameB(st, 4);
+                sb_end(st);
+        }
+
         /* base streams for the damage enumeration: 9 frames, the last one only flushes */
         for (int k = 0; k < 4; k++) {
                 st = &BASE[NBASE++];
@@ -743,7 +763,12 @@ static void partition_case(uint64_t idx, void *arg)
                 }
                 if (one.n < want || !frame_eq(&one.f[0], &st->sent[0])) mc_outcome("intact TS stream: first frame not delivered as sent (PES packet dropped while synchronising)");
         }
-        if (st->intact && ref.n < 2) h_die("stream %s delivers only %d frames", st->name, ref.n);
+        /* a verdict about the tree, not about the harness: the streams are built with >= 3 deliverable frames */
+        if (st->intact && ref.n < 2) {
+                char key[160]; snprintf(key, sizeof key, "intact %s stream: frames not delivered as sent", fr);
+                mc_violation(key, "stream=%s fed in one call: %d frames sent (+1 flushing frame), only %d delivered", st->name, st->nsent - 1, ref.n);
+                return;
+        }
 
         vbi_dvb_demux *dx = dx_new(st->ts, iface);
         size_t n = st->n;
@@ -1109,9 +1134,17 @@ static void damage_case(uint64_t idx, void *arg)
         for (int j = 0; j < intact.n; j++) {
                 intact_idx[j] = -1;
                 for (int q = 0; q <= nlast; q++) if (frame_eq(&intact.f[j], &st->sent[q])) intact_idx[j] = q;
-                if (intact_idx[j] < 0 || (j && intact_idx[j] != intact_idx[j - 1] + 1)) h_die("base stream %s: undamaged run does not deliver the sent frames", st->name);
+                if (intact_idx[j] < 0 || (j && intact_idx[j] != intact_idx[j - 1] + 1)) {
+                        char key[160]; snprintf(key, sizeof key, "intact %s stream: frames not delivered as sent", fr);
+                        mc_violation(key, "base stream %s of the damage enumeration, undamaged, fed in one call: delivered frame %d is %s", st->name, j, intact_idx[j] < 0 ? "not a sent frame" : "out of order");
+                        free(buf); return;
+                }
         }
-        if (intact.n < nlast || intact_idx[intact.n - 1] != nlast) h_die("base stream %s: undamaged run delivers %d frames", st->name, intact.n);
+        if (intact.n < nlast || intact.n < 1 || intact_idx[intact.n - 1] != nlast) {
+                char key[160]; snprintf(key, sizeof key, "intact %s stream: frames not delivered as sent", fr);
+                mc_violation(key, "base stream %s of the damage enumeration, undamaged, fed in one call: %d frames delivered, F0..F%d sent (+1 flushing frame)", st->name, intact.n, nlast);
+                free(buf); return;
+        }
         uint8_t *sbuf = malloc(st->n + 512);
         if (st->ts && idx == 0 && only_kind == 0) for (unsigned sh = 1; sh < 16; sh++) {
                 memcpy(sbuf, st->b, st->n);
@@ -1280,7 +1313,7 @@ int main(int argc, char **argv)
         for (int i = 0; i < NST; i++) {
                 const char *nm = ST[i].name;
                 sel[nsel++] = i;
-                ST[i].quick = i < first_variant && (strstr(nm, "-3x1") || strstr(nm, "-foreign") || strstr(nm, "-garbage") || strstr(nm, "-var") || strstr(nm, "-private") || strstr(nm, "-short-units") || strstr(nm, "-line0"));
+                ST[i].quick = i < first_variant && (strstr(nm, "-3x1") || strstr(nm, "-foreign") || strstr(nm, "-garbage") || strstr(nm, "-var") || strstr(nm, "-private") || strstr(nm, "-short-units") || strstr(nm, "-line0") || strstr(nm, "-scrambled"));
                 if (mc_tier == MC_THOROUGH || ST[i].quick) { nrun++; if (i >= first_variant) nvar++; }
         }
         /* longest searches first */
